@@ -52,8 +52,8 @@ PROPS = {
     ),
     "C12": dict(
         title="Span and SignedDuration are faithful value types with enforced limits",
-        verus=["sdur", "span"],
-        kani_quick=[], kani_thorough=["c10_model"],
+        verus=["sdur", "span", "spanconv"],
+        kani_quick=["c12_sdur_float", "c12_sdur_float_native"], kani_thorough=["c10_model"],
         design_ref="DESIGN.md section 4, C12",
     ),
     "C06": dict(
@@ -78,7 +78,7 @@ PROPS = {
     ),
     "C05": dict(
         title="Fallible operations return errors: no panics, no out-of-range results",
-        verus=["posix", "tzif", "rounders", "sdur", "zoned", "span", "civiladd", "civildiff", "ambig", "isoweek", "spanround", "zonedround", "tsarith", "offround", "dtdiff", "zoneddiff", "tzdispatch", "civilarith", "civilwith"],
+        verus=["posix", "tzif", "rounders", "sdur", "zoned", "span", "civiladd", "civildiff", "ambig", "isoweek", "spanround", "zonedround", "tsarith", "offround", "dtdiff", "zoneddiff", "tzdispatch", "civilarith", "civilwith", "spanconv"],
         all_fns=True,
         kani_quick=["c01_civil", "c02_wrappers", "c10_model"],
         kani_thorough=["c10_model"],
@@ -123,14 +123,14 @@ PROPS = {
     "C16": dict(
         title="strftime/strptime and RFC 2822 agree with the calendar and invert each other",
         verus=["kspec"],
-        kani_quick=["c16_strftime"], kani_thorough=[],
+        kani_quick=["c16_strftime", "c16_fields", "c16_parse", "c16_todate"], kani_thorough=[],
         design_ref="DESIGN.md section 4, C16",
-        level_text="Calendar-fact part only: through the real Formatter methods into a fixed buffer, for ALL dates (Neri-Schneider callee replaced by its Verus-proved contract as axiomatised memo stub) %j, %U, %W, %u, %w print the value the C library defines with the documented padding, and %z / %:z print sign/HH/MM[/SS] of every offset (sign correct also below one hour). strptime inversion, multi-specifier formats, locale names and RFC 2822 are NOT decided.",
+        level_text="Numeric strftime/strptime on the real Formatter / Parser methods (Kani; full domain unless a harness is labelled bounded): every numeric specifier prints the value the C library defines with the documented padding for ALL dates/times/offsets (%j %U %W %u %w %Y %y %C %m %d %e %H %k %I %l %M %S %p %P %G %g %V %s %f %z, flags and widths), the field parsers accept exactly the documented shapes with the decoded in-range value on every byte window, BrokenDownTime::to_date reconstructs the date from (Y,m,d), (Y,j) and (G,V,u), and (thorough tier) format-then-parse round trips.  NOT decided: the directive loop of Parser::parse as a whole (CBMC runs out of memory), %U/%W-based date reconstruction, locale names beyond %a %b %B %A, RFC 2822.  Known finding F26: %A cannot parse \"Tuesday\" (misspelt table entry pinned by a repository snapshot test).",
     ),
     "C17": dict(
         title="Parsers are total: arbitrary input gives Ok or Err, and Ok values are sane",
         verus=["tzif", "posix"],
-        kani_quick=["c17_tzif", "c17_posix", "c17_offset", "c18_designation", "c09_datetime", "c09_offset_optional"], kani_thorough=[],
+        kani_quick=["c17_tzif", "c17_posix", "c17_offset", "c18_designation", "c09_datetime", "c09_offset_optional", "c16_parse"], kani_thorough=[],
         design_ref="DESIGN.md section 4, C17",
         level_text="TZif part only. Proof (loop-free, full domain): the 44-byte TZif header parser and all block-length computations never panic and return exact products or Err on overflow. Bounded stand-ins (bounds stated in evidence.coverage.bounded, never counted as proved): the transition-type and local-time-type block parsers on 2 records. 'A time zone built from accepted data answers every lookup without panicking' is the Verus obligations of the tzif and posix units (tables of any length, every rule) under the well-formedness that the block parsers establish (type indices < number of types, offsets in range). NOT decided: Temporal/friendly/RFC 2822/strptime/offset/RFC 9557/POSIX-TZ text parsers, 'work proportional to input'.",
     ),
